@@ -75,6 +75,7 @@ func WithTimeout(parent context.Context, d time.Duration) (context.Context, cont
 	c := NewSimContext(ticks)
 	c.Deadline0 = true
 	c.HardCap = DriverHardCap
+	c.PanicAfter = 65536
 	DriverCtx = c
 	SetCurrent(c)
 	return c, func() { c.Cancel() }
